@@ -213,7 +213,8 @@ def run_case(case):
                              else 'alias', tempdir=sb.path,
                              tables=tables,
                              wrap_sources=case.get('wrap', False))
-            snap_args = snapshot(w.args)
+            # (as they were when handed to petl, i.e. before construction)
+            snap_args = ('list', tuple(w.arg_snaps))
             items = is_items(stack)
             canon = canon_cell if items else canon_row
 
